@@ -14,6 +14,12 @@
 (*   "gddot"    acceleration-level constraints with the reported           *)
 (*              accelerations                                              *)
 (*   "drift"    no growth of the constraint residual over the run          *)
+(* Static solvers (C23): every returned load step / arc-length point       *)
+(*   "equilibrium"  h(t, q, 0) + W_g la_g + W_c la_c + W_N la_N = 0        *)
+(*   "c"            compliance equations                                   *)
+(*   "signorini"    min(la_N, g_N) = 0                                     *)
+(*   "frame"        the equilibria of the rigidly moved problem are the    *)
+(*                  moved equilibria                                       *)
 (* The harness evaluates the residuals of every stored step from the       *)
 (* returned Solution with System.g / g_dot / g_ddot / M / h / W_*, and     *)
 (* classifies each block as "ok", "borderline" (within a factor 100 of the *)
@@ -24,8 +30,9 @@ EXTENDS Integers, Sequences, FiniteSets, TLC, Json, IOUtils
 
 CONSTANTS Mode      \* "table" | "trace"
 
-Blocks == {"g", "gdot", "gdot_mid", "quat", "eom", "gddot", "drift"}
-Solvers == {"Rattle", "BackwardEuler", "DualStormerVerlet", "Moreau", "ScipyDAE", "ScipyIVP"}
+Blocks == {"g", "gdot", "gdot_mid", "quat", "eom", "gddot", "drift", "equilibrium", "c", "signorini", "frame"}
+Solvers == {"Rattle", "BackwardEuler", "DualStormerVerlet", "Moreau", "ScipyDAE", "ScipyIVP", "Newton", "Riks"}
+Static == {"Newton", "Riks"}
 Enforced(s) ==
     CASE s = "Rattle"            -> {"g", "gdot", "quat"}
       [] s = "BackwardEuler"     -> {"g", "quat"}
@@ -33,8 +40,11 @@ Enforced(s) ==
       [] s = "Moreau"            -> {"gdot_mid", "quat"}
       [] s = "ScipyDAE"          -> {"g", "gdot", "drift"}
       [] s = "ScipyIVP"          -> {"eom", "gddot"}
+      [] s = "Newton"            -> {"equilibrium", "g", "c", "quat", "signorini", "frame"}
+      [] s = "Riks"              -> {"equilibrium", "g", "c", "quat", "frame"}
 \* every solver enforces something on the bilateral constraints, and only known blocks
-TableOK == \A s \in Solvers : Enforced(s) \subseteq Blocks /\ Enforced(s) \cap {"g", "gdot", "gdot_mid", "gddot"} # {}
+TableOK == /\ \A s \in Solvers : Enforced(s) \subseteq Blocks /\ Enforced(s) \cap {"g", "gdot", "gdot_mid", "gddot"} # {}
+           /\ \A s \in Static : {"equilibrium", "g", "c", "quat"} \subseteq Enforced(s)      \* a returned point is an equilibrium of the whole model
 
 SeqToSet(q) == {q[i] : i \in DOMAIN q}
 Verdict(r) ==
@@ -47,6 +57,10 @@ Verdict(r) ==
          ELSE IF "quat" \in bad THEN "a stored orientation quaternion is not of unit length"
          ELSE IF "eom" \in bad THEN "reported accelerations and multipliers do not satisfy the equations of motion"
          ELSE IF "gddot" \in bad THEN "reported accelerations violate the acceleration-level constraints"
+         ELSE IF "equilibrium" \in bad THEN "a returned load step is not in static equilibrium"
+         ELSE IF "c" \in bad THEN "a returned load step violates the compliance equations"
+         ELSE IF "signorini" \in bad THEN "a returned load step violates the static Signorini conditions"
+         ELSE IF "frame" \in bad THEN "the equilibria of the rigidly moved problem are not the moved equilibria"
          ELSE "the constraint residual drifts"
 
 VARIABLES l, verdicts
